@@ -305,13 +305,21 @@ def execute(sc, sim):
                "gzip_source_opened", "utf16_source", "multibyte_char_split_by_short_read",
                "node_with_2plus_gaps", "unary_root", "gf_split_used", "replace_parens_used",
                "emptypos_token", "damage_inside_group", "damage_between_groups",
-               "damaged_file_still_wellformed", "reader_rejected_damaged_file")
+               "damaged_file_still_wellformed", "reader_rejected_damaged_file",
+               "gzip_file_of_several_members", "big_gzip_files_same_name_read_alternately",
+               "untagged_word_with_gf_split")
     viols = []
     spec = build_spec(sc)
     obs = sim.run(spec)
     st.add_obs(obs)
     if obs.get("hang"):
         viols.append(cm.viol("C01/hang", note="simulated process exceeded its alarm"))
+    if any(f.get("gz_members") for f in sc["files"]):
+        st.probe("gzip_file_of_several_members")
+    if len(sc["files"]) == 2 and all(f["gz"] and "/part." in f["path"] for f in sc["files"]):
+        st.probe("big_gzip_files_same_name_read_alternately")
+    if any("brackets_emptypos" in f["opts"] and "gf_split" in f["opts"] for f in sc["files"]):
+        st.probe("untagged_word_with_gf_split")
     fmts = [sc["files"][r["file"]]["fmt"] for r in sc["readers"]]
     if len(fmts) != len(set(fmts)) and st.d["faults"].get("interleave"):
         st.probe("two_readers_same_format_interleaved")
